@@ -3,7 +3,7 @@ from ._core_common import *  # noqa
 
 PROP = "C02"
 SCHEDULERS = ("eager", "rr")
-OPTS = dict(multi=True, mgroup=True, p_single_group=0.3, alias=True, combiner=True, fsm=True, nested_methods=True, p_fresh=0.96, p_conflict=0.6, p_mconflict=0.8, n_mconflict=2, p_tm_conflict=0.4, mprio=True, min_tr=3, p_group=0.8)
+OPTS = dict(p_mbefore=0.5, multi=True, mgroup=True, p_single_group=0.3, alias=True, combiner=True, fsm=True, nested_methods=True, p_fresh=0.96, p_conflict=0.6, p_mconflict=0.8, n_mconflict=2, p_tm_conflict=0.4, mprio=True, min_tr=3, p_group=0.8)
 BOUNDS = {"quick": "40 batches x 12 random designs rich in add_conflict relations (t-t, m-m, t-m; all priorities), both schedulers", "thorough": "400 batches x 25 designs"}
 OUTSIDE = OUTSIDE_COMMON
 ASSUMES = ASSUMES_COMMON
